@@ -1712,6 +1712,22 @@ def check_auto_roots(ctx, mexe, cases, impls, stats):
             ctx.mismatch(c, "QuadTree(Y,N) root box %r vs model auto_root %r" % (got, [float(e) for e in ex]))
 
 
+
+def on_grid_class(x, hw):
+    """premise of Properties_C18.children_cover_binary64_exact_inputs on one axis of a dumped cell: centre = mx*2^g,
+    half size = 2*mw*2^g with |mx| + 2|mw| < 2^53, -1074 <= g <= 971 (then the binary64 box arithmetic is exact)"""
+    if hw == 0.0:
+        return False
+    fx, fw = Fraction(x), Fraction(hw) / 2
+    den = max(fx.denominator, fw.denominator)
+    g = -(den.bit_length() - 1)
+    mx, mw = fx * den, fw * den
+    # the coarsest common grid: strip common factors of two
+    while mx % 2 == 0 and mw % 2 == 0 and (mx != 0 or mw != 0):
+        mx, mw, g = mx / 2, mw / 2, g + 1
+    return -1074 <= g <= 971 and abs(mx) + 2 * abs(mw) < 2 ** 53
+
+
 def compare(c, d, m, pts, stats):
     """model vs implementation; returns None or a description of the first difference"""
     if c["mode"] == "E" and d["R"] != m["R"]:
@@ -1742,6 +1758,13 @@ def compare(c, d, m, pts, stats):
         if abs(Fraction(a[9]) - b[8]) > bnd or abs(Fraction(a[10]) - b[9]) > bnd:
             return "cell %d center_of_mass (%r, %r) vs model (%s, %s)" % (ci, a[9], a[10], float(b[8]), float(b[9]))
     stats["cells_compared"] += len(m["cells"])
+    for a in d["cells"]:
+        if a[0] == "N":
+            # internal cells of the real tree inside / outside the class on which the binary64 box arithmetic is proved exact
+            if on_grid_class(a[1], a[3]) and on_grid_class(a[2], a[4]):
+                stats["internal_cells_in_exact_class"] += 1
+            else:
+                stats["internal_cells_outside_exact_class"] += 1
     stats["max_depth"] = max(stats["max_depth"], m["depth"] or 0)
     if c["kind"].startswith("scale"):
         stats["scaled_max_depth"] = max(stats["scaled_max_depth"], m["depth"] or 0)
@@ -1803,7 +1826,7 @@ def new_stats():
             "cases_point_on_root_split_line": 0, "order_groups": 0, "order_pairs": 0, "float_replays": 0, "float_replay_forces": 0,
             "float_replay_near_tie": 0, "grad_cases": 0, "grad_replayed": 0, "grad_exact": 0, "grad_bound": 0, "cell_count_checks": 0,
             "float_model_cases": 0, "float_model_cells": 0, "float_model_contains_evals": 0, "float_model_cracks": 0,
-            "float_model_witness_checked": 0, "float_model_coqc_seconds": 0.0, "scaled_twins": 0, "scaled_max_depth": 0}
+            "float_model_witness_checked": 0, "internal_cells_in_exact_class": 0, "internal_cells_outside_exact_class": 0, "float_model_coqc_seconds": 0.0, "scaled_twins": 0, "scaled_max_depth": 0}
 
 
 def run_batch(ctx, exe, mexe, cases, stats, with_model=True):
